@@ -6,7 +6,7 @@ from oracle_util import *  # noqa
 from protocol import from_real
 
 ID = "C04"
-LEAN_MODULE = ["SCoda.Props.C04", "SCoda.Props.C04b", "SCoda.Props.C04c", "SCoda.Props.WrapTie", "SCoda.Props.C04d"]
+LEAN_MODULE = ["SCoda.Props.C04", "SCoda.Props.C04b", "SCoda.Props.C04c", "SCoda.Props.WrapTie", "SCoda.Props.C04d", "SCoda.Props.ViewTie"]
 LEVEL = "proof"
 CLAUSES = [
     ("after any history both views describe the same timed events and the same duration (generic two-view machine, instantiated with the modelled conversions)",
@@ -46,6 +46,12 @@ CLAUSES = [
       "SCoda.WrapTie.quantiseAndNormalise_eq", "SCoda.WrapTie.scale_eq", "SCoda.WrapTie.transpose_eq", "SCoda.WrapTie.split_eq",
       "SCoda.WrapTie.concatenate_eq", "SCoda.WrapTie.merge_eq", "SCoda.WrapTie.getSequenceDuration_eq", "SCoda.WrapTie.isEmpty_eq",
       "SCoda.WrapTie.translated_covered", "SCoda.C04d.genExec_eq", "SCoda.C04d.genRun_eq", "SCoda.C04d.history_inv_gen", "SCoda.C04d.history_readable_gen"]),
+    ("TIE BY TRANSLATION, view level: the methods of RelativeSequence / AbsoluteSequence / MidiTrack that the wrapper calls and that have no dict-of-dict state are "
+     "re-translated statement by statement on every run (Gen/ViewFns.lean, tools/py2lean.py: for/while/break/continue, in-place edits, binary_insort's bisection with "
+     "fuel) and each translation is proved equal to the hand model for all inputs whose channels are not None: both conversions, pad, set_channel, concatenate, both "
+     "add_message, scale (integer factor >= 1), transpose, merge, binary_insort, sort/normalise_absolute, get_sequence_duration, is_empty, to_midi_track/to_mido_track. "
+     "Still linked by correspondence only: normalise_relative, split, quantise, quantise_note_lengths, cutoff (stores through an alias), the pairing helpers",
+     ["SCoda.ViewTie.setChannel_eq", "SCoda.ViewTie.concatenate_eq", "SCoda.ViewTie.pad_eq", "SCoda.ViewTie.addMessage_none", "SCoda.ViewTie.addMessage_some", "SCoda.ViewTie.addMessageUnsorted_eq", "SCoda.ViewTie.normaliseAbsolute_eq", "SCoda.ViewTie.binaryInsort_eq", "SCoda.ViewTie.absAddMessage_eq", "SCoda.ViewTie.toAbs_eq", "SCoda.ViewTie.toRel_eq", "SCoda.ViewTie.scaleRel_eq", "SCoda.ViewTie.transposeRel_eq", "SCoda.ViewTie.transposeRel_eq_gen", "SCoda.ViewTie.getSequenceDuration_eq", "SCoda.ViewTie.merge_eq", "SCoda.ViewTie.isEmpty_eq", "SCoda.ViewTie.isChannelConsistent_eq", "SCoda.ViewTie.getSequenceChannel_eq", "SCoda.ViewTie.parseInternalMessage_eq", "SCoda.ViewTie.toMidiTrack_eq", "SCoda.ViewTie.toMidoTrack_eq", "SCoda.ViewTie.toMidi_toMido_eq"]),
     ("tripwire: every public name of Sequence found by introspection (regenerated list) appears in the hand-written classification table and "
      "vice versa — a new or removed public method breaks it; it says nothing about what the methods do",
      ["SCoda.C04.ops_covered", "SCoda.C04.ops_exist"]),
